@@ -12,25 +12,34 @@ PROP = dict(
           "round-tripped through stft/istft. Exhaustive within the bound, silent outside it; nothing is sampled.",
     note="for n above 256 (quick 64) the letter alphabet is a finite witness set (boundary/split impulses, tones, 5 closed-form letters, dense "
          "round trip), not the full matrix; stft/istft windows all have nwin = nfft and nfft is a multiple of 4",
-    rule="a case is a block (check, n[, input form]) / (odd-n block of 32 lengths) / (nfft, window, overlap, range, method, j, r); evaluations = "
+    rule="a case is a block (check, n[, input form]) / (odd-n block of 32 lengths) / (call history around n) / (nfft, window, overlap, range, method, j, r); evaluations = "
          "library results compared with the oracle. Non-trivial = block with n >= 2, every irfft/istft block, every call whose expected outcome "
          "is an exception. Plan kinds reached and stft configurations are listed in path_histogram.",
     bounds=dict(
         quick="ifft: every n in 1..256 (columns/impulses at every index for n <= 64, else boundary + split positions; 5 closed-form spectra; dense "
               "O(n^2) oracle; round trip of 4 letters); irfft: every even n in 2..256 x {all n bins, first n/2+1 bins} x {impulses, tones, 5 "
               "closed-form, dense, round trip of 4 letters} x {irfft(X,n), irfft(X), IfftPlanR solve/operator()}; odd n in 1..257 must throw "
-              "(2 forms x 2 APIs, forked; repeated under ASan); wrong bin counts for 13 n (crash only); stft/istft: nfft in {8,12,16,20,24,32,48,64} "
+              "(2 forms x 2 APIs, forked; repeated under ASan); wrong bin counts for 13 n (crash only); irfft.after_reject: every even n in 2..256, in one process: irfft(X,n), then rejected "
+              "irfft(.,n+1)/irfft(.,n-1)/IfftPlanR(n+1)/IfftPlanR(n-1), valid calls at n+2 and n-2 in 6 orders; every later irfft(X,n) / "
+              "IfftPlanR(n).solve(X) (and those at n-2, n+2) bit-identical to the first and within the value oracle; "
+              "stft/istft: nfft in {8,12,16,20,24,32,48,64} "
               "x 11 windows (hann/hamming/blackman/cosine/kaiser5 sym+periodic, rect) x every overlap 0..nfft-1 accepted by iscola(ola or wola) x 3 "
-              "ranges x 2 methods x lengths nfft+j*hop+r, j in {0,1,3}, r in {0,1,hop-1}; letters: ramp, dense, every impulse when length <= 96. "
-              "ASan pass: everything forked, n <= 64, nfft in {8,12,16}",
-        thorough="as quick with n <= 2048 (all columns/impulses for n <= 256, dense oracle n <= 1024), odd n in 1..2049, stft adds nfft 128, 256, 1024; "
+              "ranges x 2 methods x lengths nfft+j*hop+r, j in {0,1,3}, r in {0,1,hop-1}; letters: ramp, dense, every impulse when length <= 96; plus a sparse grid at "
+              "nfft in {512, 1024}: periodic hann and blackman, overlap nfft/2 and 3nfft/4 (when iscola accepts), ola and wola, onesided, length "
+              "nfft+3*hop+hop-1, ramp + dense. Every sample with reference weight > 16*nseg*eps*max(wmax,1) is judged with a condition-aware "
+              "tolerance (no relative weight threshold). ASan pass: everything forked, n <= 64, nfft in {8,12,16}",
+        thorough="as quick with n <= 2048 (all columns/impulses for n <= 256, dense oracle n <= 1024), odd n in 1..2049, after_reject n <= 2048, stft uses the full grid also for nfft 128, 256, 512, 1024 (no sparse grid); "
                  "ASan pass n <= 256"),
     deadline=dict(quick=150, thorough=1500),
     passes=[dict(name="main"), dict(name="asan", variant="asan", args=["--asan-pass"])],
     assumptions=COMMON_ASSUME + [
         "'reproduces x' is judged at 64*n*eps relative l2 for ifft, irfft and both round trips (the statement gives no number)",
-        "istft: compared where the reference accumulated weight (sum of win^(a+1) over all complete frames) is >= 1e-3 of its maximum, tolerance "
-        "1e-9*max|x| (weaker than 'non-zero weight'); frames = floor((nx-overlap)/hop) complete frames",
+        "istft: every sample whose reference accumulated weight w_i (sum of win^(a+1) over the floor((nx-overlap)/hop) complete frames, long double) "
+        "exceeds 16*nseg*eps*max(wmax,1) is compared with tolerance tol_i = 1e-9*max|x| + 64*log2(nfft)*eps*max_f||frame_f*win||_2*sum_f|win^a|/w_i "
+        "and judged when tol_i <= 1e-3*max|x| (others counted in path_histogram); weights in (0, 16*nseg*eps*max(wmax,1)] are at the rounding "
+        "level of a double-precision weight accumulation and are read as zero (weaker reading of 'non-zero')",
+        "irfft.after_reject demands bit-identical results for identical arguments on one thread (a pure function of its arguments) in addition "
+        "to the value oracle",
         "a wrong number of bins passed to irfft is outside the statement: only a crash / sanitizer report / hang is a failure there",
         "odd n: std::exception or any other C++ exception counts as rejection",
     ],
